@@ -1107,3 +1107,16 @@ func isDeferred(in ssa.Instruction) bool {
 	_, ok := in.(*ssa.Defer)
 	return ok
 }
+
+// isFreeVarLoad: v is a load of a captured variable (*fv) or the free variable itself.
+func isFreeVarLoad(v ssa.Value) bool {
+	v = stripConv(v)
+	if _, ok := v.(*ssa.FreeVar); ok {
+		return true
+	}
+	if u, ok := v.(*ssa.UnOp); ok && u.Op == token.MUL {
+		_, isFV := u.X.(*ssa.FreeVar)
+		return isFV
+	}
+	return false
+}
